@@ -17,6 +17,8 @@
 //! It never guesses: an arm whose destination cannot be identified uniquely, a guard, a
 //! missing function or a second candidate `match` is an `Err`.
 use crate::util::*;
+#[path = "c12_decode.rs"]
+mod decode_ctor;
 use quote::ToTokens;
 use std::collections::BTreeMap;
 use syn::visit::Visit;
@@ -895,8 +897,9 @@ fn enum_variants(repo: &str, rel: &str, enum_name: &str) -> Result<Vec<EnumVaria
     Err(format!("{rel}: enum {enum_name} not found"))
 }
 
-/// `from_db_valueset_v2`: stored variant ↦ decoding struct (None = rejected).
-fn dispatch_decode(repo: &str) -> Result<Vec<(String, Option<String>)>, String> {
+/// `from_db_valueset_v2`: stored variant ↦ decoding struct (None = rejected) and the
+/// constructor function of that struct the arm calls (`from_dbvs2` / `new`).
+fn dispatch_decode(repo: &str) -> Result<Vec<(String, Option<String>, Option<String>)>, String> {
     let rel = "server/lib/src/valueset/mod.rs";
     let ast = parse_file(repo, rel)?;
     let f = find_fn(&ast, "from_db_valueset_v2")?;
@@ -907,14 +910,22 @@ fn dispatch_decode(repo: &str) -> Result<Vec<(String, Option<String>)>, String> 
             return Err(format!("from_db_valueset_v2: guard on `{}`", a.pat.to_token_stream()));
         }
         let mut structs: Vec<String> = vec![];
+        let mut fns: Vec<String> = vec![];
         for s in paths_in_expr(&a.body) {
             if s.len() >= 2 && s[s.len() - 2].starts_with("ValueSet") && (s[s.len() - 1] == "from_dbvs2" || s[s.len() - 1] == "new") {
                 let n = s[s.len() - 2].clone();
                 if !structs.contains(&n) {
                     structs.push(n);
                 }
+                if !fns.contains(&s[s.len() - 1]) {
+                    fns.push(s[s.len() - 1].clone());
+                }
             }
         }
+        if fns.len() > 1 {
+            return Err(format!("from_db_valueset_v2: arm `{}` calls several constructors {fns:?}", a.pat.to_token_stream()));
+        }
+        let dst_fn = fns.first().cloned();
         let dst = match structs.len() {
             0 if looks_like_reject(&a.body) => None,
             1 => Some(structs[0].clone()),
@@ -932,7 +943,7 @@ fn dispatch_decode(repo: &str) -> Result<Vec<(String, Option<String>)>, String> 
             let v = pat_path(c)
                 .and_then(|p| variant_of_path(p, "DbValueSetV2"))
                 .ok_or_else(|| format!("from_db_valueset_v2: pattern `{}`", c.to_token_stream()))?;
-            out.push((v, dst.clone()));
+            out.push((v, dst.clone(), dst_fn.clone()));
         }
     }
     Ok(out)
@@ -1114,9 +1125,9 @@ fn tables(repo: &str, out: &str) -> Result<String, String> {
     }
     let mut dec = vec![];
     for (d, dn) in db_names.iter().enumerate() {
-        let (_, z) = decode
+        let (_, z, _) = decode
             .iter()
-            .find(|(v, _)| v == dn)
+            .find(|(v, _, _)| v == dn)
             .ok_or_else(|| format!("from_db_valueset_v2 has no arm for DbValueSetV2::{dn}"))?;
         let zi = match z {
             Some(z) => Some(
@@ -1166,6 +1177,21 @@ fn tables(repo: &str, out: &str) -> Result<String, String> {
         struct_syntax.push(id);
     }
 
+    // ---- how every decoder builds its struct: fields of the struct vs fields rebuilt ----
+    let mut decode_ctors: Vec<(usize, decode_ctor::DecodeCtor)> = vec![];
+    for (si, im) in impls.iter().enumerate() {
+        let mut fns: Vec<String> = decode.iter().filter(|(_, z, _)| z.as_deref() == Some(im.name.as_str())).filter_map(|(_, _, f)| f.clone()).collect();
+        fns.sort();
+        fns.dedup();
+        if fns.is_empty() {
+            return Err(format!("{}: no arm of from_db_valueset_v2 decodes into {}", im.file, im.name));
+        }
+        let ast = parse_file(repo, &im.file)?;
+        for f in fns {
+            decode_ctors.push((si, decode_ctor::analyse(&ast, &im.file, &im.name, &f)?));
+        }
+    }
+
     // ---- time codec of the queued message's expiry (D24) ----
     let msg_unit = message_expiry_unit(repo)?;
 
@@ -1210,6 +1236,10 @@ fn tables(repo: &str, out: &str) -> Result<String, String> {
         "/-- `OutboundMessage::CredentialResetV1.expiry_time` is stored with `#[serde(with = \"{}\")]`: an integer count of units of this many nanoseconds -/\ndef messageExpiryCodec : TimeCodec := {{ unitNs := {} }}\n",
         msg_unit.0, msg_unit.1
     );
+    body += &format!(
+        "/-- How each decoder reached from `from_db_valueset_v2` builds its struct: through a canonical in-memory constructor\n(`via`), or by struct literals — then, for every field of `pub struct ValueSetX {{ … }}`, where its value comes from\n(kind 0 direct from the stored data, 1 a `let mut` accumulator with the arms of the `match` that update it, 2 a constant). -/\ndef decodeCtors : List DecodeCtor := [\n  {}]\n",
+        decode_ctors.iter().map(|(si, c)| decode_ctor::lean_ctor(c, *si)).collect::<Vec<_>>().join(",\n  ")
+    );
     body += "end Kanidm.Gen.StoreCodec\n";
     let path = format!("{out}/StoreCodecTables.lean");
     let text = format!(
@@ -1219,12 +1249,15 @@ fn tables(repo: &str, out: &str) -> Result<String, String> {
         std::fs::write(&path, text).map_err(|e| format!("{path}: {e}"))?;
     }
     Ok(format!(
-        "StoreCodecTables: {} tag pairs ({} arms), {} record pairs, dispatch {} structs x {} stored constructors",
+        "StoreCodecTables: {} tag pairs ({} arms), {} record pairs, dispatch {} structs x {} stored constructors, {} decoders ({} struct literals, {} accumulator fields)",
         pairs.len(),
         pairs.iter().map(|p| p.enc.len() + p.dec.len()).sum::<usize>(),
         recs.len(),
         struct_names.len(),
-        db_names.len()
+        db_names.len(),
+        decode_ctors.len(),
+        decode_ctors.iter().map(|(_, c)| c.literals.len()).sum::<usize>(),
+        decode_ctors.iter().flat_map(|(_, c)| c.literals.iter().flatten()).filter(|f| matches!(f.init, decode_ctor::Init::Acc { .. })).count()
     ))
 }
 
